@@ -1,2 +1,3 @@
 pub mod cfg;
 pub mod progen;
+pub mod c17gen;
